@@ -212,6 +212,10 @@ fn mutate(text: &str, rng: &mut Rng) -> String {
             }
         }
     }
+    // a trailing `;` would be swallowed by the wrapping `local` statement
+    while p.last().map(|x| x == ";").unwrap_or(false) {
+        p.pop();
+    }
     p.join(" ")
 }
 
@@ -286,7 +290,11 @@ fn check_exprs(cases: &[ExprCase], report: &mut Report, r55: &mut Ref55, seen: &
             match r55.compile(&src) {
                 Ok(()) => {
                     report.count("expr_ref55_accepts");
-                    if real.errors != 0 {
+                    if real.errors != 0 && c.intended.is_none() && real.first_error.contains("expected function name") {
+                        // luars accepts `function <non-name> … end` as a statement (PUC-Lua: "<name> expected"); the
+                        // reference is wrong here, not the parser
+                        report.count("expr_ref55_lenient_function_name_skipped");
+                    } else if real.errors != 0 {
                         oracle_fail(report, json!({"input": expr_input(c), "class": null,
                             "what": format!("the Lua 5.5 reference compiler accepts it, the parser reports: {}", real.first_error)}));
                     }
